@@ -490,5 +490,15 @@ func checkC17(c *Ctx, w *World) {
 			}
 		}
 	})
+	// the caller's option slice is only read: appending INTO it would write the service config into the caller's backing
+	// array, where the next GCPMultiEndpoint built from the same slice overwrites it
+	for _, prm := range mk.Params {
+		if _, isSlice := prm.Type().Underlying().(*types.Slice); !isSlice {
+			continue
+		}
+		bad := writableUses(p, prm, map[ssa.Value]bool{}, 0)
+		// handing the slice to append as the SOURCE (a copy) is fine; returning it unchanged is not used here
+		c.check(len(bad) == 0, "C17.gme", "makeOpts does not write into the caller's option slice ("+prm.Name()+")", p.pos(mk.Pos()), "the caller's slice is only read (copied before the grpc-gcp options are appended)", "the caller's option slice is used as an append destination / stored / passed on: the grpc-gcp options (with this object's service config) land in the caller's backing array and can be overwritten through it: "+strings.Join(bad, "; "))
+	}
 	c.check(okMk && nameOK, "C17.gme", "makeOpts serialises the caller's config", p.pos(mk.Pos()), "protojson.Marshal(options.GRPCgcpConfig) embedded in the default service config under the balancer's registered name", "the pools are not configured with the JSON rendering of the caller's config under the grpc_gcp balancer name")
 }
